@@ -363,3 +363,54 @@ func TestGocvReplay(t *testing.T) {
 		},
 	})
 }
+
+// ---------------------------------------------------------------------------
+// driver: (*catchEvent).ConsumeEvent — delivery to a catch event whose node has not been reached (C11): nobody reads
+// its inbox yet, so delivery blocks once the inbox (2*incoming+1 slots) is full.
+
+func init() {
+	registerReplay(replayDriver{
+		name: "bpmn.catchEvent.ConsumeEvent on a node not yet reached",
+		match: func(ob *Oblig) bool {
+			return ob.Class == "blocking" && strings.HasPrefix(ob.Func, "bpmn.(*catchEvent).ConsumeEvent")
+		},
+		build: func(ob *Oblig, m map[string]string) (string, string, bool) {
+			src := fmt.Sprintf(`package bpmn
+
+import (
+	"testing"
+	"time"
+
+	"github.com/olive-io/bpmn/schema"
+	"github.com/olive-io/bpmn/v2/pkg/event"
+)
+
+type gocvReplaySource struct{}
+
+func (gocvReplaySource) RegisterEventConsumer(event.IConsumer) error { return nil }
+
+// generated by gocv for obligation %s
+func TestGocvReplay(t *testing.T) {
+	evt, err := newCatchEvent(&wiring{eventEgress: gocvReplaySource{}}, &schema.CatchEvent{})
+	if err != nil {
+		t.Fatal(err)
+	}
+	// the node has not been reached by any token: its goroutine is not running
+	for i := 1; i <= 4; i++ {
+		done := make(chan struct{})
+		go func() {
+			evt.ConsumeEvent(event.NewSignalEvent("s"))
+			close(done)
+		}()
+		select {
+		case <-done:
+		case <-time.After(time.Second):
+			t.Fatalf("delivery number %%d to a catch event that is not listening did not return within a second", i)
+		}
+	}
+}
+`, ob.Name)
+			return ".", src, true
+		},
+	})
+}
